@@ -25,8 +25,11 @@ SigSites == {"ske12", "ske12srp", "cv12", "scv13", "ccv13", "phacv", "dcsig", "d
 \*           that forced value, so nothing but the verifier's own check stands in the way
 \* "misplaced": a delegated credential that is valid for ANOTHER certificate of the chain (second entry) while the
 \*           end-entity certificate presented is someone else's
+\* "replayed": the server asks for post-handshake authentication a second time and the peer answers with the flight
+\*           (Certificate, CertificateVerify, Finished) it sent for the FIRST request: a genuine proof, but not for
+\*           this request - each certificate_request_context is good for one answer
 Classes == {"none", "bitflip", "empty", "trunc", "extend", "otherkey", "otherdata", "declother", "wrongsecret", "absent", "stale",
-            "degenerate", "misplaced"}
+            "degenerate", "misplaced", "replayed"}
 KeyTypes == {"rsa", "ecdsa", "dsa", "ed25519", "rsapss", "p384", "p521", "ed448", "bp256", "-"}
 
 \* which (site, class, key type, version) combinations exist
@@ -37,7 +40,8 @@ Meaningful(c) ==
   \* degenerate (r, s) pairs exist for the (EC)DSA family only
   /\ (c.site \in SigSites /\ c.cls = "degenerate" => c.kt \in {"dsa", "ecdsa", "p384", "p521", "bp256"})
   /\ (c.site \in SigSites => c.kt # "-")
-  /\ (c.site \notin SigSites => c.kt = "-" /\ c.cls \in {"none", "wrongsecret", "absent", "stale", "degenerate"})
+  /\ (c.site \notin SigSites => c.kt = "-" /\ c.cls \in {"none", "wrongsecret", "absent", "stale", "degenerate", "replayed"})
+  /\ (c.cls = "replayed" => c.site = "phafin")
   /\ (c.cls = "degenerate" => c.site = "srp" \/ c.site \in SigSites)
   /\ (c.cls = "absent" => c.site = "checker" /\ (c.role = "c" => c.ver = 3))
   /\ (c.cls = "stale" => c.site = "binder")
